@@ -26,12 +26,30 @@ CHECKS = {
  "C07": ("shadow-ledger monitor in exact arithmetic, independent of the program's accumulators, settled at every position update",
          "An exact ledger credits each position found in the bank with lp_fee*L_i/L_step for every in-range swap step; at every instruction that settles a position the credited fees must not exceed the ledger and may fall short only by the derived rounding bound. Fee accumulators are seeded anywhere in u128 (incl. just below wrap-around) on empty pools.",
          SVM + "; state seeding of fee_growth_global only on pools without positions or initialised ticks", "DESIGN.md#c07"),
+ "C08": ("exact-arithmetic oracle on both implementations of the liquidity<->amount functions (function level) + balance-delta monitor and limit probes on cloned state (instruction level)",
+         "The Anchor and the Pinocchio token-delta functions are run on millions of generated (price, range, +-L) cases incl. price on a bound and the shifted-tick state and compared with exact ceil/floor amounts; the liquidity-from-maxima estimate is checked for fit and maximality; in the history workload every increase/decrease/by-amounts is reconciled with the exact amounts and token_max/token_min are probed at x-1/x/x+1 on clones.",
+         SVM + "; tick prices come from the program's own conversion (decided by C09)", "DESIGN.md#c08"),
  "C09": ("complete enumeration of all ticks + boundary prices, random interior sample, exact integer oracle",
          "The forward map is enumerated over all 887273 ticks (monotone, endpoints, per-step ratio within 2^-32 by exact integer inequality); the inverse is checked at every tick boundary, one unit either side, and on a dense random interior sample against a binary search in the forward table.",
          "interior prices are sampled; native build of the same sources", "DESIGN.md#c09"),
+ "C10": ("trace monitor against a reference traversal of the decoded tick set + differential execution of the same swap under different packagings on cloned state",
+         "For every successful swap the initialized ticks crossed (hook trace) must equal the initialized ticks of the decoded pre-state between start and end price, in order, once, with matching liquidity; every second swap is re-executed on clones under permuted / duplicated / supplemental / only-named / transcoded / non-PDA / foreign-pool packagings: same set of arrays => byte-identical outcome, reduced set => error or a success that still crosses exactly its path, foreign array => error.",
+         SVM, "DESIGN.md#c10"),
+ "C11": ("shadow-ledger monitor over intervals between reward-updating instructions, exact arithmetic; funding-threshold probes on cloned state",
+         "Emissions x elapsed time are distributed by an exact ledger over the Position accounts in range during each interval; credited rewards must never exceed the ledger and fall short only by the derived bound; growth never moves without liquidity/initialisation/time; earlier timestamps fail; collection pays min(owed, vault); emission changes need a day of funding (probed at need and need-1).",
+         SVM, "DESIGN.md#c11"),
+ "C12": ("differential execution: Anchor pipeline vs Pinocchio pipeline on byte snapshots from running histories (function level) and Pinocchio route vs Anchor handlers on cloned banks (instruction level)",
+         "On reachable bytes of (whirlpool, position, tick arrays) with hostile liquidity deltas and timestamps both implementations must return the same result or error number, the same update structs, token amounts and resulting bytes of all four accounts; every increase/decrease(_v2) of the histories is additionally executed through the Anchor handlers on a clone and must end in an identical bank with identical event bytes; range validation of the two position implementations is compared as well.",
+         SVM + "; the Anchor handlers are reached through the generated try_accounts + public handler + exit (the #[program] bodies of these instructions are unreachable!())", "DESIGN.md#c12"),
  "C13": ("exhaustive transition enumeration over a boundary slot set + random sequences, four implementations against an abstract model and a harness-owned decoder",
          "Every subset of the boundary slots {0,1,62,63,64,65,86,87} x every single update x the full query set is executed on Anchor fixed, Anchor dynamic, Pinocchio fixed and Pinocchio dynamic tick arrays and compared with an abstract slot map; the dynamic encoding is re-decoded by the harness after every update (bitmap, record sizes, used length, Anchor bytes == Pinocchio bytes).",
          "buffers sized like on-chain accounts plus realloc padding; bytes beyond the used length unconstrained; random part sampled", "DESIGN.md#c13"),
+ "C14": ("trace monitor: independent re-statement of the adaptive-fee schedule applied to per-step hook records and oracle state before/after",
+         "For every successful swap leg on adaptive-fee pools the expected reference (filter/decay/reset), the per-tick-group rate of every step, rate bounds, accumulator cap, stored accumulator, major-swap timestamp, control-factor-zero equivalence and the trade-enable gate are recomputed independently and compared.",
+         SVM + "; major-swap threshold judged with a 2e-9 band on log price", "DESIGN.md#c14"),
+ "C17": ("differential execution on cloned state: two-hop vs its two single swaps; negative generation (same pool, non-chaining legs); threshold probes",
+         "Every successful two-hop of the histories is replayed on a clone as two single swaps with the intermediate amount measured at the vaults: pools, tick arrays, oracles, vaults byte-identical, trader deltas identical, intermediate balance untouched; hostile two-hops must fail; outer thresholds probed at x-1/x/x+1.",
+         SVM, "DESIGN.md#c17"),
 }
 NOT_YET = "check under construction in this session (designed in DESIGN.md section 5); not claimed until it runs silent on the unchanged tree"
 
